@@ -1,7 +1,7 @@
 """C11 -- Background2D maps are full-size, finite, mask-blind and equivariant;
 mesh values equal the estimator on the sigma-clipped unmasked box pixels.
 
-Shape (C): two full Cartesian products executed on the real ``Background2D``:
+Shape (C): three full Cartesian products executed on the real ``Background2D``:
 
 * structural product: image shape x box size x edge method x mask x data kind
   (all finite / unmasked NaN, +inf, -inf pixels) x coverage mask x
@@ -13,7 +13,20 @@ Shape (C): two full Cartesian products executed on the real ``Background2D``:
 * estimator product on 4 representative structures (one of them: coverage mask
   only + non-finite data): background estimator x RMS estimator x sigma clip x
   filter_size x filter_threshold x data representation (float64, float32,
-  Quantity).
+  Quantity);
+* degenerate-statistic product (box CONTENT is the enumerated object): one image
+  that holds, one per 3x3 box, every multiset of m = 0 .. 9 good pixels over a
+  three-letter value alphabet {0, 1, 7} (220 boxes; thorough also the four
+  letters {0, 2, 5, 7}, 715 boxes; values level + quantum * letter, the other
+  9 - m pixels masked) x background estimator x RMS estimator x sigma clip x
+  filter_size (x interpolator x exclude_percentile x representation in the
+  thorough tier).  This enumerates the boxes on which the estimators' special
+  cases live and that generic noise never produces: constant boxes (std == MAD
+  == 0), boxes with at least half (not all) of the pixels equal to the median
+  (MAD == 0, std > 0), ties at the median, two-valued boxes, 1-/2-/3-pixel
+  boxes and boxes that become any of these through sigma clipping (class of
+  every clipped box counted in the evidence).  Every clause, the magnitude
+  ladder included, is applied; mesh violations are keyed by the class of the box.
 
 Every ``Background2D`` call receives its own fresh *copies* of the mask and
 coverage-mask arrays; the oracle judges with the harness's pristine (read-only)
@@ -40,7 +53,7 @@ estimator of each box.  This reaches the scales on which a hidden absolute or
 relative tolerance of the implementation (allclose / isclose defaults 1e-8 and
 1e-5, "tiny" cut-offs, single-precision or one-pass arithmetic) sits.
 
-Both products are run twice: with the optional ``bottleneck`` accelerator
+All products are run twice: with the optional ``bottleneck`` accelerator
 importable, and with it blocked.  Blocking is done the only sound way: the
 unit is executed in a dedicated fresh interpreter in which
 ``sys.modules['bottleneck'] = None`` is set *before* photutils (and astropy)
@@ -71,7 +84,7 @@ from ..runner import Acc
 
 PROPERTY = 'C11'
 LEVEL = 'exploration'
-RULE = ('two full Cartesian products (see alphabet), each executed with bottleneck present and blocked; cases are '
+RULE = ('three full Cartesian products (see alphabet), each executed with bottleneck present and blocked; cases are '
         'distinct product indices; a case is non-trivial when the reference mesh has at least two included boxes '
         'with different values (so the full-size map is not a constant and every stage - box statistics, '
         'exclusion, fill, filter, interpolation - can change the result).  In the structural product mask kind x '
@@ -81,7 +94,12 @@ RULE = ('two full Cartesian products (see alphabet), each executed with bottlene
         '(magnitude ladder, dyadic values up to 2^30 / down to 2^-30, both signs of c) in full product with '
         'shape x box x edge x mask x exclude_percentile x interpolator (structural cells without coverage mask and '
         'non-finite pixels) and with every float64, threshold-free case of the estimator product; every other '
-        'float64 threshold-free case gets the moderate c = 16 and k = 2.5 only')
+        'float64 threshold-free case gets the moderate c = 16 and k = 2.5 only.  Degenerate-statistic product: the '
+        'enumerated objects are the pixel samples of a box - every multiset of 0..9 good pixels over a 3-letter '
+        '(thorough: also a 4-letter) value alphabet in a 3x3 box, all 220 (715) in one image, one per mesh cell - in '
+        'full product with bkg estimator x rms estimator x sigma clip x filter size (thorough: x exclude_percentile x '
+        'representation, and x interpolator on the 3-letter image); all clauses incl. the ladder apply; a mesh-value '
+        'violation is keyed by the class of the clipped box (constant / MAD==0,ptp>0 / MAD>0)')
 ASSUMPTIONS = ['numpy arithmetic, sorting and scipy.ndimage.zoom / cKDTree are trusted; the photutils estimator classes, '
                'astropy SigmaClip, the bottleneck/numpy nan-statistics dispatch and the mesh filter are NOT trusted '
                '(re-derived in mcphot/ref/bkg2d.py)',
@@ -109,6 +127,18 @@ ASSUMPTIONS = ['numpy arithmetic, sorting and scipy.ndimage.zoom / cKDTree are t
                'the mesh-vs-reference clause on shifted / scaled images is applied where the configured filter is 1x1 '
                '(one third of the estimator-product ladder cases); with a 3x3 / 1x3 filter the transformed image is '
                'judged through the relation with the (reference-checked) untransformed one',
+               'degenerate-statistic product: box statistics are functions of the multiset of good pixel values (one fixed '
+               'arrangement per box: ascending values at row-major positions rotated by the box number; arrangements are '
+               'the business of the other two products); values are level + quantum * letter with seed-chosen dyadic '
+               'level in [4, 12) and quantum in [1, 3); letters {0,1,7} and {0,2,5,7} were searched so that for the clips '
+               '(3, 10) and (2, 3) no multiset has a pixel within 1e-3 quanta of a clipping bound or of the SExtractor '
+               'branch switch (asserted at run time; most other small alphabets contain exact ties, e.g. {0,1,5}: '
+               '[0,1x7,5] has 5 == median + 3 std) - boxes ON such a tie are therefore outside the bound; the boxes '
+               'are exact multiples of the 3x3 box (no padded edge boxes here), exclude_percentile 90 (thorough: and 50), '
+               'quick: float64 and BkgZoomInterpolator only (the IDW fill of the all-masked box is always exercised); '
+               'integer input dtypes are not explored',
+               'equal-valued samples do not enter the clipping well-posedness margin: their median is exact and '
+               'std >= 0, so every pixel is kept at any offset / scale',
                'mask / coverage_mask are passed as fresh writable bool ndarrays (copies); aliasing of one caller '
                'array passed as both mask and coverage_mask is not explored; mutation of the caller\'s arrays is '
                'not judged here (that is property C10), only its effect on the returned maps']
@@ -137,6 +167,79 @@ CLIPS = [None, (3.0, 10), (2.0, 3)]
 FSIZES = [(1, 1), (3, 3), (1, 3)]
 FTHRS = [None, 'mid']
 REPRS = ['float64', 'float32', 'quantity']
+# Degenerate-statistic product: box CONTENT is the enumerated object.  Every multiset of m = 0 .. 9 good pixels over a
+# small value alphabet ("letters", realised as level + quantum * letter) in a 3x3 box, all in one image (one box per
+# mesh cell, see ref.multiset_image).  This is where std == 0, MAD == 0 with a non-constant box (at least half of the
+# pixels equal the median), ties at the median, two-valued boxes, one-/two-/three-pixel boxes and boxes that BECOME
+# degenerate through sigma clipping live; generic noise reaches none of them.  The letters are chosen (searched,
+# probe in DESIGN notes) so that no multiset has a pixel on a clipping bound or sits on the SExtractor branch switch
+# for the clips of CLIPS: smallest |pixel - bound| 4.1e-3 / 1.2e-3 quanta, branch margin 7.7e-3 / 3.3e-3 quanta
+# ((0,1,7) / (0,2,5,7)); (0,1,7) also contains |x - median| == 6 MAD exactly (the |u| == 1 edge of the biweight
+# location weights: weight 0 either way).
+DEG_LETTERS_QUICK = [(0, 1, 7)]
+DEG_LETTERS_THOROUGH = [(0, 1, 7), (0, 2, 5, 7)]
+DEG_BOX = (3, 3)
+DEG_EP_QUICK = [90]                  # 90: every box with >= 1 good pixel is included (8 of 9 masked = 88.9 %)
+DEG_EP_THOROUGH = [90, 50]           # 50: boxes with <= 4 good pixels left after clipping are excluded and filled
+DEG_FSIZES = [(1, 1), (3, 3)]
+# interpolator: the box statistics do not depend on it, and BkgIDWInterpolator costs 20 ms per map on these images
+# (10x the rest of a call): quick runs the zoom interpolator only (the IDW *fill* of the excluded all-masked box is
+# part of every call); thorough adds BkgIDWInterpolator on the (0,1,7) image
+DEG_INTERPS_QUICK = {(0, 1, 7): ['zoom']}
+DEG_INTERPS_THOROUGH = {(0, 1, 7): ['zoom', 'idw'], (0, 2, 5, 7): ['zoom']}
+DEG_REPRS_QUICK = ['float64']
+DEG_REPRS_THOROUGH = REPRS
+DEG_MARGIN = 1e-3                    # quanta; >> every rounding of the bounds (1e-15 relative; ladder: 4e-5 at 2^30)
+DEG_JUNK = -100.0                    # value stored under the mask of the unused pixels of a box
+
+
+def deg_letters(tier):
+    return DEG_LETTERS_THOROUGH if tier == 'thorough' else DEG_LETTERS_QUICK
+
+
+def deg_interps(tier, letters):
+    return (DEG_INTERPS_THOROUGH if tier == 'thorough' else DEG_INTERPS_QUICK)[tuple(letters)]
+
+
+def deg_eps(tier):
+    return DEG_EP_THOROUGH if tier == 'thorough' else DEG_EP_QUICK
+
+
+def deg_reprs(tier):
+    return DEG_REPRS_THOROUGH if tier == 'thorough' else DEG_REPRS_QUICK
+
+
+def degenerate_level(seed):
+    """'some level, some quantum': dyadic (multiples of 2^-8, so level + quantum * letter, the ladder shifts and
+    the float32 representation are all exact), level in [4, 12), quantum in [1, 3)"""
+    rng = np.random.default_rng(7001 + 13 * seed)
+    return 4.0 + int(rng.integers(0, 8 * 256)) / 256.0, 1.0 + int(rng.integers(0, 2 * 256)) / 256.0
+
+
+_REF_CACHE = {}
+
+
+def reference_mesh(data, good, box, edge, ep, clip, bkg_name, rms_name, classify=False, cached=False):
+    """ref.reference_mesh; ``cached``: memoised on the complete argument values (a pure function: the cases of the
+    degenerate product that differ only in filter size / interpolator / representation ask for the same meshes; the
+    returned arrays are never written to)"""
+    if not cached:
+        return ref.reference_mesh(data, good, box, edge, ep, clip, bkg_name, rms_name, classify=classify)
+    key = (data.shape, data.tobytes(), good.tobytes(), tuple(box), edge, ep, clip, bkg_name, rms_name, classify)
+    if key not in _REF_CACHE:
+        if len(_REF_CACHE) >= 40:
+            _REF_CACHE.clear()
+        _REF_CACHE[key] = ref.reference_mesh(data, good, box, edge, ep, clip, bkg_name, rms_name, classify=classify)
+    return _REF_CACHE[key]
+
+
+def degenerate_image(letters, seed):
+    level, quantum = degenerate_level(seed)
+    data, mask, boxes, _ = ref.multiset_image(tuple(letters), DEG_BOX, level, quantum, DEG_JUNK)
+    mask.setflags(write=False)
+    return data, mask, boxes
+
+
 # Magnitude axes of the shift / scale relations ("ladder").  All values are dyadic so that the transformed image is
 # formed WITHOUT rounding: the ladder data are first rounded to multiples of 2**-20 (QGRID), |data| <= 128, hence
 # data + c is exact for every c that is a multiple of 2**-20 with |c| <= 2**30, and data * 2**e is always exact.
@@ -369,15 +472,19 @@ def float_threshold_exact(box_npix, ep):
 # ---------------------------------------------------------------- the oracle for one configuration
 def check_config(acc, case, seed, *, shape, box, edge, mask_kind, cov_kind, ep, interp, bkg_name='SExtractor',
                  rms_name='Std', clip=(3.0, 10), fsize=(3, 3), fthr=None, rep='float64', fill=FILL,
-                 relations=True, tier='quick', nonfinite=False, ladder=False):
+                 relations=True, tier='quick', nonfinite=False, ladder=False, degenerate=None):
     pb, SigmaClip, u = _phot()
+    if degenerate is not None:            # degenerate-statistic product: the image IS the enumeration of the boxes
+        base, mask, deg_boxes = degenerate_image(degenerate, seed)
+        shape, box = base.shape, DEG_BOX
     shape = tuple(shape)
     ebox = eff_box(shape, box)
     rbox = box_of(shape, box)
-    base = make_data(shape, seed)
     if mask_kind == 'nonfinite':          # spelling of replay files written before 'data kind' became an axis
         mask_kind, nonfinite = 'none', True
-    mask = make_mask(mask_kind, shape, ebox, edge)
+    if degenerate is None:
+        base = make_data(shape, seed)
+        mask = make_mask(mask_kind, shape, ebox, edge)
     nonfinite = nonfinite_pixels(shape) if nonfinite else []
     cov = make_cov(cov_kind, shape)
     for (p, v) in nonfinite:
@@ -398,7 +505,18 @@ def check_config(acc, case, seed, *, shape, box, edge, mask_kind, cov_kind, ep, 
     scale = float(np.max(np.abs(data64[good]))) if good.any() else 1.0
     tol = rtol * scale
 
-    R = ref.reference_mesh(data64, good, ebox, edge, ep, clip, bkg_name, rms_name)
+    deg = degenerate is not None
+    R = reference_mesh(data64, good, ebox, edge, ep, clip, bkg_name, rms_name, classify=deg, cached=deg)
+    if degenerate is not None:
+        # well-posedness of the discontinuous steps on this (quantised) input: the letters are chosen so that no
+        # pixel of any box lies on or near a clipping bound / the SExtractor branch switch (soundness rule 1: such
+        # ties would be undecidable); this is a property of the enumeration, so a failure is a harness error
+        q = degenerate_level(seed)[1]
+        if not (R['clip_margin'] > DEG_MARGIN * q and R['branch_margin'] > DEG_MARGIN * q):
+            raise RuntimeError(f'harness: degenerate letters {degenerate} put a pixel within {DEG_MARGIN} quanta of a '
+                               f'clipping bound / branch switch (clip {R["clip_margin"]!r}, branch {R["branch_margin"]!r})')
+        for c_ in ('constant', 'MAD==0,ptp>0', 'MAD>0'):
+            acc.counters[f'degenerate_boxes_after_clipping:{c_}'] += int((R['cls'] == c_).sum())
     exact_thr = float_threshold_exact(ebox[0] * ebox[1], ep)
     doc_incl = R['incl'].copy()
     sure_incl = R['incl'] & ~R['boundary']
@@ -460,7 +578,7 @@ def check_config(acc, case, seed, *, shape, box, edge, mask_kind, cov_kind, ep, 
     for j in range(m1.shape[0]):
         for i in range(m1.shape[1]):
             cell = f'cell({j},{i})'
-            kind = _cell_kind(shape, ebox, j, i)
+            kind = _cell_kind(shape, ebox, j, i) if degenerate is None else f'box-{R["cls"][j, i]}'
             if amb[j, i]:
                 must_inc = must_exc = False
             else:
@@ -481,10 +599,12 @@ def check_config(acc, case, seed, *, shape, box, edge, mask_kind, cov_kind, ep, 
                 continue
             if not exc[j, i]:
                 acc.counters['cells_compared'] += 1
+                what = '' if degenerate is None else f' box letters {list(deg_boxes[j * m1.shape[1] + i])}'
                 if not abs(m1[j, i] - R['bkg'][j, i]) <= tol:
-                    acc.violation('mesh-value', f'background:{bkg_name}:{kind}', case, f'{cell} {m1[j, i]!r}', repr(R['bkg'][j, i]))
+                    acc.violation('mesh-value', f'background:{bkg_name}:{kind}', case, f'{cell} {m1[j, i]!r}{what}',
+                                  repr(R['bkg'][j, i]))
                 if not abs(r1[j, i] - R['rms'][j, i]) <= tol:
-                    acc.violation('mesh-value', f'rms:{rms_name}:{kind}', case, f'{cell} {r1[j, i]!r}', repr(R['rms'][j, i]))
+                    acc.violation('mesh-value', f'rms:{rms_name}:{kind}', case, f'{cell} {r1[j, i]!r}{what}', repr(R['rms'][j, i]))
                 if int(np1[j, i]) != int(R['npix'][j, i]):
                     acc.violation('mesh-value', f'npixels:{kind}', case, f'{cell} {int(np1[j, i])}', int(R['npix'][j, i]))
             else:
@@ -670,7 +790,7 @@ def check_config(acc, case, seed, *, shape, box, edge, mask_kind, cov_kind, ep, 
     # reference's smallest |pixel - clip bound| must exceed 4 (1 + sigma) delta and the branch margin 4 * 2.3 delta,
     # delta = n eps M being twice the bound on the error of mean/median/std (else counted as ill-posed, not judged).
     dq = np.round(base * QGRID) / QGRID
-    Rq = ref.reference_mesh(dq, good, ebox, edge, ep, clip, bkg_name, rms_name)
+    Rq = reference_mesh(dq, good, ebox, edge, ep, clip, bkg_name, rms_name, cached=deg)
     if not np.array_equal(Rq['npix'], R['npix']):
         acc.counters['ladder_quantisation_changed_clipping'] += 1        # measure-zero: rounding by 5e-7 flipped a clip
         return
@@ -710,7 +830,7 @@ def check_config(acc, case, seed, *, shape, box, edge, mask_kind, cov_kind, ep, 
                                   f'{float(np.ptp(got)) if got.size else 0.0!r}, expected spread {float(np.ptp(want)) if got.size else 0.0!r})',
                                   f'<= {t!r} = 16 (n + 8) eps (scale + |c|), n = {npb}')
             if unfiltered:
-                mesh_clause(b4, ref.reference_mesh(dc, good, ebox, edge, ep, clip, bkg_name, rms_name), t, f'shifted:c={lab}')
+                mesh_clause(b4, reference_mesh(dc, good, ebox, edge, ep, clip, bkg_name, rms_name, cached=deg), t, f'shifted:c={lab}')
 
     # 6b. scale by powers of two.  data * 2**e is exact and commutes with every IEEE operation (+ - * / sqrt,
     # comparisons) as long as nothing under/overflows (|values| between 2**-60 * 1e-7 and 2**40 * 100, squares
@@ -742,7 +862,7 @@ def check_config(acc, case, seed, *, shape, box, edge, mask_kind, cov_kind, ep, 
                               f'{float(np.ptp(got)) / k if got.size else 0.0!r} k, expected spread '
                               f'{float(np.ptp(want)) / k if got.size else 0.0!r} k)', f'<= {t!r} = 1e-12 k scale')
         if unfiltered:
-            mesh_clause(b5, ref.reference_mesh(dk, good, ebox, edge, ep, clip, bkg_name, rms_name), rtol * scale * k,
+            mesh_clause(b5, reference_mesh(dk, good, ebox, edge, ep, clip, bkg_name, rms_name, cached=deg), rtol * scale * k,
                         f'scaled:k={lab}')
 
 
@@ -842,6 +962,13 @@ def run_case(acc, case, seed, tier):
                      cov_kind=case['coverage'], ep=case['exclude_percentile'], interp=case['interpolator'], tier=tier,
                      nonfinite=case.get('data_kind', 'finite') == 'nonfinite',
                      ladder=case['coverage'] == 'none' and case.get('data_kind', 'finite') == 'finite')
+    elif case['product'] == 'degenerate':
+        check_config(acc, case, seed, shape=None, box=DEG_BOX, edge='pad', mask_kind='degenerate', cov_kind='none',
+                     ep=case['exclude_percentile'], interp=case['interpolator'], bkg_name=case['bkg_estimator'],
+                     rms_name=case['bkgrms_estimator'],
+                     clip=None if case['sigma_clip'] is None else tuple(case['sigma_clip']),
+                     fsize=tuple(case['filter_size']), fthr=None, rep=case['data'], fill=0.0, tier=tier,
+                     ladder=True, degenerate=tuple(case['letters']))
     else:
         st = STRUCTS[case['structure']]
         check_config(acc, case, seed, shape=st['shape'], box=st['box'], edge=st['edge'], mask_kind=st['mask'],
@@ -861,6 +988,9 @@ def plan(tier, seed):
         for k in range(len(structs(tier))):
             for ci in range(len(CLIPS)):
                 units.append({'kind': 'estimator', 'structure': k, 'clip': ci, 'bn': bn})
+        for li in range(len(deg_letters(tier))):
+            for ci in range(len(CLIPS)):
+                units.append({'kind': 'degenerate', 'letters': li, 'clip': ci, 'bn': bn})
     # blocked units each start an interpreter: schedule them first so that their start-up overlaps
     units.sort(key=lambda u_: u_['bn'] != 'blocked')
     return units
@@ -873,6 +1003,16 @@ def unit_cases(unit, tier):
         box = BOXES[unit['box']]
         for edge, mk, dk, ck, ep, interp in itertools.product(EDGES, MASKS, DATAK, COVS, eps(tier), INTERPS):
             yield dict(struct_case_dict(shape, box, edge, mk, dk, ck, ep, interp, bn), tier=tier)
+    elif unit['kind'] == 'degenerate':
+        clip = CLIPS[unit['clip']]
+        # filter size / interpolator / representation innermost: those cases share their reference meshes (cache)
+        letters = deg_letters(tier)[unit['letters']]
+        for be, re_, ep, fs, interp, rep in itertools.product(BKG_EST, RMS_EST, deg_eps(tier), DEG_FSIZES,
+                                                              deg_interps(tier, letters), deg_reprs(tier)):
+            yield {'product': 'degenerate', 'letters': list(letters), 'bkg_estimator': be,
+                   'bkgrms_estimator': re_, 'sigma_clip': None if clip is None else list(clip),
+                   'exclude_percentile': ep, 'filter_size': list(fs), 'interpolator': interp, 'data': rep,
+                   'bottleneck': bn, 'tier': tier}
     else:
         clip = CLIPS[unit['clip']]
         for be, re_, fs, ft, rep in itertools.product(BKG_EST, RMS_EST, FSIZES, FTHRS, REPRS):
@@ -931,7 +1071,22 @@ def describe(tier, seed):
     nest = len(structs(tier)) * len(BKG_EST) * len(RMS_EST) * len(CLIPS) * len(FSIZES) * len(FTHRS) * len(REPRS)
     nladder = 2 * (ns * len(BOXES) * len(EDGES) * len(MASKS) * len(eps(tier)) * len(INTERPS)
                    + len(structs(tier)) * len(BKG_EST) * len(RMS_EST) * len(CLIPS) * len(FSIZES))
+    ndeg = sum(len(BKG_EST) * len(RMS_EST) * len(CLIPS) * len(deg_eps(tier)) * len(DEG_FSIZES) * len(deg_interps(tier, L))
+               * len(deg_reprs(tier)) for L in deg_letters(tier))
+    nladder += 2 * sum(len(BKG_EST) * len(RMS_EST) * len(CLIPS) * len(deg_eps(tier)) * len(DEG_FSIZES) * len(deg_interps(tier, L))
+                       for L in deg_letters(tier))
     return {'alphabet': {
+        'degenerate_statistic_product': {
+            'boxes': 'every multiset of m = 0..9 good pixel values over the letters, one per 3x3 box of ONE image '
+                     '(mesh cell b holds multiset b, ordered by m then lexicographically; 9 - m pixels masked)',
+            'letters': {str(list(L)): {'boxes': len(ref.multiset_boxes(L, DEG_BOX[0] * DEG_BOX[1])),
+                                       'interpolator': deg_interps(tier, L)} for L in deg_letters(tier)},
+            'value': 'level + quantum * letter (dyadic, seed-chosen: level, quantum = %r)' % (degenerate_level(seed),),
+            'bkg_estimator': BKG_EST, 'bkgrms_estimator': RMS_EST,
+            'sigma_clip(sigma,maxiters)': [None if c is None else list(c) for c in CLIPS],
+            'filter_size': [list(f) for f in DEG_FSIZES], 'exclude_percentile': deg_eps(tier), 'data': deg_reprs(tier),
+            'box_classes_reached': 'counters degenerate_boxes_after_clipping:{constant, MAD==0,ptp>0, MAD>0}',
+            'configurations': ndeg},
         'structural_product': {'shape': [list(s) for s in shapes(tier)], 'box': [b if isinstance(b, str) else list(b) for b in BOXES],
                                'edge_method': EDGES, 'mask': MASKS,
                                'data_kind': {'finite': 'generic noise + 2 outliers',
@@ -962,4 +1117,4 @@ def describe(tier, seed):
                                        'k=2.5; ladder configurations additionally every c and k of magnitude_ladder',
         'array_handling': 'every Background2D call receives fresh writable copies of mask / coverage_mask; the oracle '
                           'uses the read-only originals',
-        'total_configurations': 2 * (nstruct + nest)}}
+        'total_configurations': 2 * (nstruct + nest + ndeg)}}
